@@ -293,6 +293,13 @@ class A_cconv(EdgeAdapter):
     def rg(self, prio, pred):
         return self.edge.reserve_get()
 
+    # conveyors expose no cancel at edge level; nodes cancel through event.resourcename (the belt store)
+    def cp(self, ev):
+        return self.store.reserve_put_cancel(ev)
+
+    def cg(self, ev):
+        return self.store.reserve_get_cancel(ev)
+
     def inside(self):
         return [x[0] if isinstance(x, tuple) else x for x in self.edge.items()]
 
@@ -327,6 +334,12 @@ class A_sconv(EdgeAdapter):
 
     def rg(self, prio, pred):
         return self.store.reserve_get(prio)
+
+    def cp(self, ev):
+        return self.store.reserve_put_cancel(ev)
+
+    def cg(self, ev):
+        return self.store.reserve_get_cancel(ev)
 
     def inside(self):
         return [x[0] for x in self.store.items] + list(self.store.ready_items)
